@@ -1,11 +1,17 @@
 ------------------------------ MODULE MC_Remote ------------------------------
 EXTENDS Remote, Json
 CONSTANTS MaxSend, MaxPeer,   \* bounds on what sources / the peer write
-          MCKinds             \* envelope kinds used by the environment in this configuration
+          MCKinds,            \* envelope kinds used by the environment in this configuration
+          DlPath              \* the path each downlink attaches to / writes to in this configuration
 
 \* bounds (CONSTRAINT) and environment restriction (ACTION_CONSTRAINT)
 Bound == cnt.send <= MaxSend /\ cnt.peer <= MaxPeer
 KindFilter == (lastAct'.k \in {"peer_send", "dl_send", "agent_send"}) => lastAct'.msg.kind \in MCKinds
+\* downlinks attach in order of their ids (symmetry), to their configured path, and write to it
+DlScript == /\ (lastAct'.k = "attach_req") =>
+                 /\ <<lastAct'.node, lastAct'.lane>> = DlPath[lastAct'.d]
+                 /\ \A d \in Dls : d < lastAct'.d => dl[d].st # "new"
+            /\ (lastAct'.k = "dl_send") => <<lastAct'.msg.node, lastAct'.msg.lane>> = DlPath[lastAct'.d]
 \* reading from a channel commutes with everything else: do it first (partial-order reduction by hand)
 Urgent == (\E s \in Srcs : inbox[s] # <<>> /\ ~SrcGone(s)) => lastAct'.k = "recv"
 
@@ -15,5 +21,5 @@ InitDump == (lastAct.k = "init") => PrintT(<<"INIT", ToJson(View)>>)
 
 \* PART 1: enumerate the abstract envelope space with the abstract wire form the writer must produce
 PureNext == UNCHANGED vars
-PureDump == \A e \in EnvSpace : PrintT(<<"ENV", ToJson([e |-> e, w |-> Write(e), back |-> Read(Write(e))])>>)
+PureDump == (lastAct.k = "init") => \A e \in EnvSpace : PrintT(<<"ENV", ToJson([e |-> e, w |-> Write(e), back |-> Read(Write(e))])>>)
 =============================================================================
